@@ -1,8 +1,101 @@
-/- line-protocol handlers for C13 (stub: not built yet) -/
+/- line-protocol handlers for C13 (two-qubit measures: spin flip and ensemble contractions exactly, closed forms on Float) -/
 import Driver.Loop
+import NumqiModel.Entangle
+import NumqiModel.Decision
 
 namespace Numqi.Driver.C13
+open Numqi Numqi.Ent
 
-def handle (_args : List String) : String := "bad-op"
+def ratOfInt (n : Int) : Rat := n
+
+/-- `"reBits,imBits"` (binary64 bit patterns) ↦ exact Gaussian rational; `none` for inf/nan -/
+def parseQIBits? (s : String) : Option QI :=
+  match s.splitOn "," with
+  | [a, b] => do
+      let x ← a.toNat?
+      let y ← b.toNat?
+      if x / 2^52 % 2048 = 2047 || y / 2^52 % 2048 = 2047 then none
+      else pure ⟨ratOfFloatBits x, ratOfFloatBits y⟩
+  | _ => none
+
+def parseQIBitsList? (s : String) : Option (List QI) := (s.splitOn ";").mapM parseQIBits?
+
+def qiListStr (l : List QI) : String := ";".intercalate (l.map QI.toStr)
+
+def getQ (a : Array QI) (i : Nat) : QI := a.getD i 0
+def getG (a : Array GInt) (i : Nat) : GInt := a.getD i 0
+
+def handle (args : List String) : String :=
+  match args with
+  | ["eof", bits] => Id.run do
+      let some b := bits.toNat? | return "bad-op"
+      if b ≥ 2^64 then return "bad-op"
+      return toString (eof2qubit (Float.ofBits b.toUInt64)).toBits
+  | ["gme", bits] => Id.run do
+      let some b := bits.toNat? | return "bad-op"
+      if b ≥ 2^64 then return "bad-op"
+      return toString (gme2qubit (Float.ofBits b.toUInt64)).toBits
+  | ["spinflip", rho] => Id.run do
+      let some r := parseGIntList? rho | return "bad-op"
+      if r.length ≠ 16 then return "bad-op"
+      let ra := r.toArray
+      let ρ : Nat → Nat → GInt := fun i j => getG ra (i * 4 + j)
+      return gintListStr ((List.range 4).flatMap fun i => (List.range 4).map fun j => spinFlip ρ i j)
+  | ["concarg", sq, rho] => Id.run do
+      let some s := parseGIntList? sq | return "bad-op"
+      let some r := parseGIntList? rho | return "bad-op"
+      if s.length ≠ 16 || r.length ≠ 16 then return "bad-op"
+      let sa := s.toArray
+      let ra := r.toArray
+      let S : Nat → Nat → GInt := fun i j => getG sa (i * 4 + j)
+      let ρ : Nat → Nat → GInt := fun i j => getG ra (i * 4 + j)
+      return gintListStr ((List.range 4).flatMap fun i => (List.range 4).map fun j => concurrenceArg S ρ i j)
+  | ["concpure", dA, dB, k, ents] => Id.run do
+      let some dA := dA.toNat? | return "bad-op"
+      let some dB := dB.toNat? | return "bad-op"
+      let some k := k.toNat? | return "bad-op"
+      let some e := parseGIntList? ents | return "bad-op"
+      if dA < 2 || dB < 2 || e.length ≠ dA * dB || k > 60 then return "bad-op"
+      let den : Rat := ratOfInt (2^k : Nat)
+      let ea := (e.map fun g => (⟨ratOfInt g.re / den, ratOfInt g.im / den⟩ : QI)).toArray
+      let ψ : Nat → Nat → QI := fun a b => getQ ea (a * dB + b)
+      return (concPureRadicand dA dB ψ).toStr
+  | ["pur", m, num, ents] => Id.run do
+      let some m := m.toNat? | return "bad-op"
+      let some num := num.toNat? | return "bad-op"
+      let some e := parseGIntList? ents | return "bad-op"
+      if e.length ≠ num * m * m || m = 0 then return "bad-op"
+      let ea := e.toArray
+      let T : Nat → Nat → Nat → GInt := fun al a b => getG ea ((al * m + a) * m + b)
+      return gintListStr ((List.range num).map fun al => ensemblePurity m T al)
+  | ["ens", dimA, dimB, num, rank, sq, xs] => Id.run do
+      let some dimA := dimA.toNat? | return "bad-op"
+      let some dimB := dimB.toNat? | return "bad-op"
+      let some num := num.toNat? | return "bad-op"
+      let some rank := rank.toNat? | return "bad-op"
+      let some s := parseQIBitsList? sq | return "bad-op"
+      let some x := parseGIntList? xs | return "bad-op"
+      if dimA < 2 || dimB < 2 || s.length ≠ dimA * dimB * rank || x.length ≠ num * rank then return "bad-op"
+      let sa := s.toArray
+      let xa := (x.map QI.ofGInt).toArray
+      let m := if dimA ≤ dimB then dimA else dimB
+      return qiListStr ((List.range num).flatMap fun al => (List.range m).flatMap fun p => (List.range m).map fun q =>
+        ensembleRdm dimA dimB rank (getQ sa) (getQ xa) al p q)
+  | ["gmeov", dims, num, rank, sq, xs, psis] => Id.run do
+      let some dims := parseNatList? dims | return "bad-op"
+      let some num := num.toNat? | return "bad-op"
+      let some rank := rank.toNat? | return "bad-op"
+      let some s := parseQIBitsList? sq | return "bad-op"
+      let some x := parseGIntList? xs | return "bad-op"
+      let some ps := (psis.splitOn "|").mapM parseGIntList? | return "bad-op"
+      if dims.length < 2 || dims.any (· < 2) || s.length ≠ prodL dims * rank || x.length ≠ num * rank then return "bad-op"
+      if ps.length ≠ dims.length then return "bad-op"
+      if (List.range dims.length).any (fun i => (ps.getD i []).length ≠ num * dims.getD i 0) then return "bad-op"
+      let sa := s.toArray
+      let xa := (x.map QI.ofGInt).toArray
+      let pa := (ps.map fun l => (l.map QI.ofGInt).toArray).toArray
+      let psi : Nat → Nat → QI := fun i k => getQ (pa.getD i #[]) k
+      return qiListStr ((List.range num).map fun al => gmeOverlap dims rank (getQ sa) (getQ xa) psi al)
+  | _ => "bad-op"
 
 end Numqi.Driver.C13
